@@ -310,9 +310,13 @@ func printHarness(hr *HarnessResult, verbose bool) {
 			continue
 		}
 		seen[v.Label] = true
-		b, _ := json.Marshal(v.Cex)
-		if len(b) > 3000 && !verbose {
-			b = append(b[:3000], "..."...)
+		cp := *v.Cex
+		if !verbose {
+			cp.PathCond = nil
+		}
+		b, _ := json.Marshal(cp)
+		if len(b) > 1800 && !verbose {
+			b = append(b[:1800], "..."...)
 		}
 		fmt.Printf("  CEX %s: %s\n", v.Label, b)
 	}
